@@ -773,7 +773,7 @@ def replay(ctx, obj):
         print("replay: unknown input kind %r" % op)
 
 
-READY = False
+READY = True
 LEVEL_TEXT = ("Theorems (Coq, all grids / sizes): floor-modulo range and periodicity, wrapped difference in [-180,180) and congruent to its "
               "argument; on every grid congruent mod 360 to an increasing grid with cyclic gaps in (0,180) every direction step equals its gap, "
               "is positive, and the steps sum to 360; uniform grids (any start angle, stored mod 360 or not) give 360/N; e, a1, b1, a2, b2 are the "
